@@ -56,7 +56,7 @@ SCRATCH = "/root/scratch/C16/run"
 # generation
 
 
-def mkfield(rng, name, top, equal_len_bias=0.5):
+def mkfield(rng, name, top, equal_len_bias=0.3):
     aliases = []
     r = rng.random()
     if r < equal_len_bias:
@@ -98,6 +98,16 @@ def rand_tree(rng, depth, width, top):
     nf = rng.randint(0 if depth > 0 else 1, width)
     names = rng.sample(NAMES, nf)
     fields = [mkfield(rng, n, top) for n in names]
+    if rng.random() < 0.85:
+        # mostly keep aliases from clashing with a sibling (same destination: no prefix can separate them)
+        taken = {_spell(n) for n in names}
+        for f in fields:
+            keep = []
+            for a in f["aliases"]:
+                if _spell(a) not in taken and _spell(a).replace("_", "-") not in {t.replace("_", "-") for t in taken}:
+                    keep.append(a)
+                    taken.add(_spell(a))
+            f["aliases"] = keep
     if rng.random() < 0.3:
         fields.insert(rng.randint(0, len(fields)), hidden_field(rng, rng.choice(HIDDEN)))
     kids = []
@@ -207,13 +217,15 @@ def gen(tier, seed):
             for nm in NM:
                 for mode in ("AUTO", "EXPLICIT", "NONE"):
                     for li, lay in enumerate(layouts):
+                        if mode == "NONE" and li > 0:
+                            continue  # the same class at two destinations always clashes under NONE
                         if tier == "quick" and (k + li) % 2:
                             k += 1
                             continue
                         c = {"dv": dv, "gm": gm, "nm": nm, "mode": mode, "dests": deep(lay)}
                         cases.append(add_source(rng, name_classes(c), srcs[k % 4]))
                         k += 1
-    n = 420 if tier == "quick" else 5000
+    n = 520 if tier == "quick" else 6000
     for _ in range(n):
         big = tier == "thorough" and rng.random() < 0.25
         depth = rng.randint(0, 3 if big else 2)
@@ -229,7 +241,7 @@ def gen(tier, seed):
         if r < 0.1:
             items[rng.randrange(nd)][2] = rng.choice(["p_", "zz."])
         c = {"dv": rng.choice(list(DV)), "gm": rng.choice(["FLAT", "FLAT", "NESTED", "BOTH"]), "nm": rng.choice(list(NM)),
-             "mode": rng.choice(["AUTO", "AUTO", "AUTO", "EXPLICIT", "NONE"]), "dests": items}
+             "mode": rng.choice(["AUTO"] * 6 + ["EXPLICIT"] * 2 + ["NONE"]), "dests": items}
         cases.append(add_source(rng, name_classes(c), rng.choice(["none", "none", "instance", "set_defaults", "config"])))
     for c in cases:
         c["nseeds"] = nseeds
